@@ -23,7 +23,7 @@ def corpus(tier):
     out = []
     for cfg in CONFIGS:
         for t in cfg["targets"]:
-            for s in range(nseeds):
+            for s in range(min(nseeds, cfg.get("seeds", nseeds))):
                 out.append((cfg, common.SEED * 1000 + s, t))
     return out
 
@@ -60,7 +60,9 @@ def observe_all(check, tier):
                 DEAD.append(rrec["dead_record"])
             continue
         recs.append(rec)
-        rrecs.append(rrec)
+        # very long chains are judged as growth processes only (the resolver-style clauses are quadratic in the copies)
+        if not cfg.get("growth_only"):
+            rrecs.append(rrec)
     check.extra["dead_ends_skipped"] = dead
     check.skipped += dead
     return recs, rrecs
